@@ -39,9 +39,16 @@ class Model:
         self.tables = dict(tables)
         self.lat_of = {v: [l for l, ch in self.latents if v in ch] for v in order}
         # grid axes: own noises in node order, then latents
-        self.axes = [("U", v) for v in order] + [("L", l) for l, _ in self.latents]
+        # (an exogenous term with a single value is a constant: it gets no axis - numpy allows 32 dimensions)
+        all_axes = [("U", v) for v in order] + [("L", l) for l, _ in self.latents]
+        all_sizes = [len(self.noise_w[v]) for v in order] + [len(self.lat_w[l]) for l, _ in self.latents]
+        self.axes = [a for a, n in zip(all_axes, all_sizes) if n > 1]
+        self.const_weight = 1
+        for a, n in zip(all_axes, all_sizes):
+            if n == 1:
+                self.const_weight *= int((self.noise_w[a[1]] if a[0] == "U" else self.lat_w[a[1]])[0])
         self.axis_index = {a: i for i, a in enumerate(self.axes)}
-        self.sizes = [len(self.noise_w[v]) for v in order] + [len(self.lat_w[l]) for l, _ in self.latents]
+        self.sizes = [n for n in all_sizes if n > 1]
         self.grid = int(np.prod([int(s) for s in self.sizes], dtype=object)) if self.sizes else 1
         if self.grid > MAX_GRID:
             raise ModelTooLarge(self.grid)
@@ -58,14 +65,16 @@ class Model:
 
     # ---- noise grid --------------------------------------------------------------
     def _axis_array(self, axis):
-        i = self.axis_index[axis]
+        i = self.axis_index.get(axis)
+        if i is None:
+            return np.zeros([1] * len(self.axes), dtype=np.int64)
         shape = [1] * len(self.axes)
         shape[i] = self.sizes[i]
         return np.arange(self.sizes[i], dtype=np.int64).reshape(shape)
 
     def weights_flat(self):
         if self._wflat is None:
-            w = np.ones([1] * len(self.axes), dtype=np.int64)
+            w = np.full([1] * len(self.axes), self.const_weight, dtype=np.int64)
             for a in self.axes:
                 i = self.axis_index[a]
                 shape = [1] * len(self.axes)
@@ -209,6 +218,14 @@ def random_model(rng: random.Random, order, parents, bidirected, *, max_card=3, 
         if attempt >= 4:
             cards = dict(card) if card else {v: 2 for v in order}
             noise_w = {v: [rng.randint(1, 3) for _ in range(cards[v] + 1)] for v in order}
+        # a one-valued variable is a constant: no noise of its own, and a latent all of whose children are constants
+        # has nothing to confound (both keep the grid small on wide graphs with a few live variables)
+        for v in order:
+            if cards[v] == 1:
+                noise_w[v] = [1]
+        for l, g in latents:
+            if all(cards[c] == 1 for c in g):
+                lat_w[l] = [1]
         grid = 1
         for v in order:
             grid *= len(noise_w[v])
